@@ -109,7 +109,8 @@ Definition rmae_err_pinned (e : example) : f64 :=
   else two_hundred.
 
 (* rmae_error_functor::operator() after the repair: when an intermediate
-   result overflows the calculation is repeated on halved operands *)
+   result (200 * delta or |approx| + |target|) overflows the calculation is
+   performed on halved operands *)
 Definition rmae_err (e : example) : f64 :=
   let mv := out (ex_in e) in
   if p_has_value mv then
@@ -118,12 +119,13 @@ Definition rmae_err (e : example) : f64 :=
     let delta := F64.abs (F64.sub tgt approx) in
     if F64.leb delta (F64.mul ten dbl_min) then F64.zero
     else
-      let err := F64.div (F64.mul two_hundred delta) (F64.add (F64.abs approx) (F64.abs tgt)) in
-      if negb (F64.is_finite err) then
+      let sum := F64.add (F64.abs approx) (F64.abs tgt) in
+      if F64.is_finite (F64.mul two_hundred delta) && F64.is_finite sum then
+        F64.div (F64.mul two_hundred delta) sum
+      else
         F64.mul two_hundred
           (F64.div (F64.abs (F64.sub (F64.div tgt two) (F64.div approx two)))
                    (F64.add (F64.div (F64.abs approx) two) (F64.div (F64.abs tgt) two)))
-      else err
   else two_hundred.
 
 (* count_error_functor::operator() *)
